@@ -283,6 +283,16 @@ class YieldDict(dict):
     def __delitem__(self, k):
         self._s.sync(lambda r: [3, self._enc(k)], lambda: dict.__delitem__(self, k))
 
+    # accesses the current code does not make: still scheduling points (a label the model does not have)
+    def pop(self, k, *default):
+        return self._s.sync(lambda r: [15, self._enc(k)], lambda: dict.pop(self, k, *default))
+
+    def get(self, k, default=None):
+        return self._s.sync(lambda r: [16, self._enc(k)], lambda: dict.get(self, k, default))
+
+    def setdefault(self, k, default=None):
+        return self._s.sync(lambda r: [17, self._enc(k)], lambda: dict.setdefault(self, k, default))
+
 
 # ---------------------------------------------------------------------------------------------
 # choosers
@@ -307,13 +317,33 @@ class RandomChooser:
         return self.last
 
 
+class BiasedChooser:
+    """When both threads can do real work the worker is chosen with probability `p_worker` (small = the worker lags
+    behind: loads are still pending when the caller goes on; large = the worker is always ahead)."""
+
+    def __init__(self, rng, p_worker, p_idle=0.05):
+        self.rng, self.p_worker, self.p_idle = rng, p_worker, p_idle
+
+    def __call__(self, enabled, idle, step):
+        cand = list(enabled)
+        busy = [t for t in cand if t not in idle]
+        if busy and len(busy) < len(cand) and self.rng.random() >= self.p_idle:
+            cand = busy
+        if len(cand) == 1:
+            return cand[0]
+        return 1 if self.rng.random() < self.p_worker else 0
+
+
 class ReplayChooser:
-    def __init__(self, schedule):
+    def __init__(self, schedule, then=None):
         self.schedule = schedule
+        self.then = then       # chooser used beyond the recorded schedule
 
     def __call__(self, enabled, idle, step):
         if step < len(self.schedule) and self.schedule[step] in enabled:
             return self.schedule[step]
+        if self.then is not None:
+            return self.then(enabled, idle, step)
         # beyond the recorded schedule (or it does not fit): run the first enabled thread
         return enabled[0]
 
